@@ -825,8 +825,21 @@ func (s Settings) Apply() (restore func()) {
 	default:
 		zerolog.ErrorStackMarshaler = nil
 	}
-	if s.IfaceMarshal == "stdjson" {
+	switch s.IfaceMarshal {
+	case "stdjson":
 		zerolog.InterfaceMarshalFunc = json.Marshal
+	case "wrap":
+		// a marshal function that changes the *value*: a build that ignores the setting is visible
+		zerolog.InterfaceMarshalFunc = func(v interface{}) ([]byte, error) {
+			if v == nil {
+				return []byte("null"), nil // zerolog renders nil Stringers / nil errors through this function too
+			}
+			b, err := json.Marshal(v)
+			if err != nil {
+				return nil, err
+			}
+			return append(append([]byte(`{"w":`), b...), '}'), nil
+		}
 	}
 	clk := time.Unix(s.ClockSec, s.ClockNsec).UTC()
 	zerolog.TimestampFunc = func() time.Time { return clk }
@@ -998,6 +1011,8 @@ func Finish(e *zerolog.Event, ev EventSpec) {
 		e.Msgf("%s", m)
 	case "msgf2":
 		e.Msgf("%s%d", m, 7)
+	case "msgf0":
+		e.Msgf(m) // the message is the format itself, no arguments
 	case "msgfunc":
 		e.MsgFunc(func() string { return m })
 	case "send":
